@@ -3,7 +3,8 @@
 // the lock; each marks its presence inside with a relaxed flag and looks for the other's flag.
 // x86-TSO keeps the order of a thread's own stores, so a flag seen set means the other side
 // really is between its acquire and its release: an OVERLAP = both inside at once.
-// usage: litmus <milliseconds>     prints: overlaps=<n> owner_iters=<n> stealer_iters=<n> ms=<t>
+// usage: litmus <milliseconds> [<owner gap>]   (gap = pause iterations of the owner outside the lock)
+// prints: overlaps=<n> owner_iters=<n> stealer_iters=<n> ms=<t>
 // Real-time and non-deterministic: it can only CONFIRM the finding, it is never required to fire.
 #include "repo_thread_cpp.h"
 #include <atomic>
@@ -28,6 +29,8 @@ static void pin(int cpu) {
 
 int main(int argc, char** argv) {
     int ms = argc > 1 ? atoi(argv[1]) : 3000;
+    int gap = argc > 2 ? atoi(argv[2]) : 8;
+    int hold = argc > 3 ? atoi(argv[3]) : 4;
     long ncpu = sysconf(_SC_NPROCESSORS_ONLN);
     std::thread owner([&] {
         if (ncpu > 1) pin(0);
@@ -35,9 +38,12 @@ int main(int argc, char** argv) {
             g_lock.foreground_lock();
             in_f.store(1, std::memory_order_relaxed);
             if (in_b.load(std::memory_order_relaxed)) overlaps_f.fetch_add(1, std::memory_order_relaxed);
+            for (int i = 0; i < hold; i++) photon::spin_wait();        // stay inside a little: widens the overlap, not the race
+            if (in_b.load(std::memory_order_relaxed)) overlaps_f.fetch_add(1, std::memory_order_relaxed);
             in_f.store(0, std::memory_order_relaxed);
             g_lock.foreground_unlock();
             it_f++;
+            for (int i = 0; i < gap; i++) photon::spin_wait();
         }
     });
     std::thread stealer([&] {
